@@ -83,6 +83,15 @@ def main():
 
     # ---- 4: verdict ----------------------------------------------------
     known = [k for k in C.load_known() if k.get('property') == prop and k.get('status') == 'open']
+    # a broken proof / source tie / build is reported with the failing input the search found, when it found one
+    open_sigs = {k.get('signature') for k in known}
+    concrete = [v for v in ctx.violations if not v['no_input'] and v.get('replay') is not None
+                and v['signature'] not in open_sigs]
+    for v in ctx.violations:
+        if v['no_input'] and concrete:
+            v['replay'] = dict(no_longer_checks=v['what'][:600], failing_input=concrete[0]['replay'],
+                               found_by=concrete[0]['signature'], observed=concrete[0]['what'][:600])
+            v['no_input'] = False
     rc = 0
     n_viol = 0
     for v in ctx.violations:
